@@ -51,6 +51,7 @@ def parseBOp : String → Option BOp
   | "satplus" => some .satplus | "satminus" => some .satminus
   | "ne" => some .ne | "lt" => some .lt | "le" => some .le | "eq" => some .eq
   | "ge" => some .ge | "gt" => some .gt | "and" => some .and | "or" => some .or
+  | "min" => some .bmin | "max" => some .bmax | "lowbits" => some .lowbits | "highbits" => some .highbits
   | _ => none
 
 def parseUOp : String → Option UOp
@@ -117,6 +118,7 @@ def showBOp : BOp → String
   | .modplus => "modplus" | .modminus => "modminus" | .modstar => "modstar" | .modshl => "modshl"
   | .satplus => "satplus" | .satminus => "satminus" | .ne => "ne" | .lt => "lt" | .le => "le"
   | .eq => "eq" | .ge => "ge" | .gt => "gt" | .and => "and" | .or => "or"
+  | .bmin => "min" | .bmax => "max" | .lowbits => "lowbits" | .highbits => "highbits"
 
 def showUOp : UOp → String
   | .pos => "pos" | .neg => "neg" | .not => "not"
